@@ -2,9 +2,9 @@
    Only statements here; each is closed by `exact <lemma>` from proofs/P_slicing*.v. *)
 From Coq Require Import ZArith Reals List Bool Sorted.
 From PW Require Import Num NumR Vec NpList Result.
-From PW.model Require Import M_slicing.
+From PW.model Require Import M_slicing M_slicing_spec.
 From Coq Require Import Permutation.
-From PW.proofs Require Import P_slicing P_slicing_face P_slicing_cover P_slicing_compl P_slicing_mesh P_slicing_perface P_slicing_idem P_slicing_z.
+From PW.proofs Require Import P_slicing P_slicing_face P_slicing_cover P_slicing_compl P_slicing_mesh P_slicing_perface P_slicing_idem P_slicing_z P_slicing_public.
 Import ListNotations.
 
 (* renumbering by bin counting: unique is the strictly increasing list of the values that occur, and
@@ -27,15 +27,31 @@ Theorem C02_slice_mapping_len : forall vs fs ref n mask r,
   length (mo_map r) = length (mo_f r) /\ Forall (fun i => (i < length fs)%nat) (mo_map r).
 Proof. exact slice_mapping_len. Qed.
 
-(* empty mesh, mesh without faces, mesh wholly behind the plane: three empty arrays *)
-Theorem C02_slice_empty :
+(* a mesh wholly behind the plane (every vertex further than the tolerance behind it), all faces selected: three empty
+   arrays — for any tolerance >= 0, and at the public entry point with the real 1e-8 *)
+Theorem C02_slice_all_behind_empty : forall tol eps vs fs n o, (0 <= tol)%R -> vs <> [] ->
+  (forall v, In v vs -> (plane_dot ROps n o v < - tol)%R) -> (forall f, In f fs -> face_valid (length vs) f) ->
+  slice_faces_plane ROps tol eps vs fs n o None = Ok (MkOut [] [] []).
+Proof. exact slice_all_behind. Qed.
+Theorem C02_public_all_behind_empty : forall vs fs ref n, vs <> [] ->
+  (forall v, In v vs -> (plane_dot ROps n ref v < - merge_tol ROps)%R) -> (forall f, In f fs -> face_valid (length vs) f) ->
+  slice_triangles_by_plane ROps vs fs ref n None = Ok (MkOut [] [] []).
+Proof. exact public_all_behind. Qed.
+
+(* "whatever the input": on the domain (faces index the vertices, the mask if any has one entry per face) the call returns *)
+Theorem C02_slice_returns_on_domain : forall vs fs ref n mask,
+  (forall f, In f fs -> face_valid (length vs) f) -> mask_ok (length fs) mask ->
+  exists r, slice_triangles_by_plane ROps vs fs ref n mask = Ok r.
+Proof. exact slice_total. Qed.
+
+(* definitional: pins the shape of the model; the content is carried by the traced ties / correspondence *)
+(* empty mesh, mesh without faces: three empty arrays (the model evaluated on empty lists) *)
+Theorem C02_slice_empty_inputs :
   (forall ref n mask, slice_triangles_by_plane ROps [] [] ref n mask = Ok (MkOut [] [] [])) /\
   (forall vs ref n mask, mask = None \/ mask = Some [] ->
-     slice_triangles_by_plane ROps vs [] ref n mask = Ok (MkOut [] [] [])) /\
-  (forall tol eps vs fs n o, (0 <= tol)%R -> vs <> [] ->
-     (forall v, In v vs -> (plane_dot ROps n o v < - tol)%R) -> (forall f, In f fs -> face_valid (length vs) f) ->
-     slice_faces_plane ROps tol eps vs fs n o None = Ok (MkOut [] [] [])).
-Proof. exact (conj slice_no_vertices (conj slice_no_faces slice_all_behind)). Qed.
+     slice_triangles_by_plane ROps vs [] ref n mask = Ok (MkOut [] [] [])).
+Proof. exact (conj slice_no_vertices slice_no_faces). Qed.
+(* end of the definitional block *)
 
 (* every returned face entry indexes a returned vertex and every returned vertex is used by a face — for all meshes
    whose faces index their vertices, all planes, all masks *)
@@ -71,6 +87,29 @@ Theorem C02_slice_perm_relabel_invariant : forall eps vs vs' (fds fds' : list (@
               (mesh_tris (mo_v (slice_fds ROps eps vs' fds')) (mo_f (slice_fds ROps eps vs' fds'))).
 Proof. exact slice_perm_relabel_invariant. Qed.
 
+(* ... at the public entry point: permuting the faces (the mask entries with them), or renumbering the vertices through any map
+   g that keeps every vertex (vs' holds vertex i of vs at position g i; unreferenced extra vertices allowed) and rewriting the
+   faces through g, permutes the returned coordinate triangles *)
+Theorem C02_public_face_order_invariant : forall vs fs fs' ref n mask mask' r r', vs <> [] ->
+  mask_ok (length fs) mask -> mask_ok (length fs') mask' ->
+  Permutation (zip fs (mask_list (length fs) mask)) (zip fs' (mask_list (length fs') mask')) ->
+  slice_triangles_by_plane ROps vs fs ref n mask = Ok r ->
+  slice_triangles_by_plane ROps vs fs' ref n mask' = Ok r' ->
+  Permutation (mesh_tris (mo_v r) (mo_f r)) (mesh_tris (mo_v r') (mo_f r')).
+Proof. exact public_face_order_invariant. Qed.
+Theorem C02_public_face_order_invariant_nomask : forall vs fs fs' ref n r r', vs <> [] -> Permutation fs fs' ->
+  slice_triangles_by_plane ROps vs fs ref n None = Ok r ->
+  slice_triangles_by_plane ROps vs fs' ref n None = Ok r' ->
+  Permutation (mesh_tris (mo_v r) (mo_f r)) (mesh_tris (mo_v r') (mo_f r')).
+Proof. exact public_face_order_invariant_nomask. Qed.
+Theorem C02_public_vertex_numbering_invariant : forall vs vs' (g : nat -> nat) fs ref n mask r r', vs <> [] -> vs' <> [] ->
+  mask_ok (length fs) mask ->
+  (forall i v, nth_error vs i = Some v -> nth_error vs' (g i) = Some v) ->
+  slice_triangles_by_plane ROps vs fs ref n mask = Ok r ->
+  slice_triangles_by_plane ROps vs' (map (map_face g) fs) ref n mask = Ok r' ->
+  Permutation (mesh_tris (mo_v r) (mo_f r)) (mesh_tris (mo_v r') (mo_f r')).
+Proof. exact public_vertex_numbering_invariant. Qed.
+
 (* idempotence: slicing the result again with the same plane (all faces selected both times) returns the same multiset of
    coordinate triangles — for all meshes and planes; and face by face: a triangle produced from a selected face is wholly on
    or in front (true offsets >= -tol), so the kernel hands it back unchanged whether selected or not *)
@@ -79,6 +118,21 @@ Theorem C02_slice_idempotent : forall tol eps vs fs n o r r2, (0 <= tol)%R -> vs
   slice_faces_plane ROps tol eps (mo_v r) (mo_f r) n o None = Ok r2 ->
   Permutation (mesh_tris (mo_v r2) (mo_f r2)) (mesh_tris (mo_v r) (mo_f r)).
 Proof. exact slice_idempotent. Qed.
+(* ... for all masks: the second call selects output face j iff the first call selected its source face mapping[j] *)
+Theorem C02_slice_idempotent_masked : forall tol eps vs fs n o fi mask mask2 r r2, (0 <= tol)%R -> vs <> [] ->
+  slice_faces_plane ROps tol eps vs fs n o fi = Ok r ->
+  mask_of (length fs) fi = Ok mask ->
+  length mask2 = length (mo_map r) ->
+  (forall j i, nth_error (mo_map r) j = Some i -> nth_error mask2 j = nth_error mask i) ->
+  slice_faces_plane ROps tol eps (mo_v r) (mo_f r) n o (Some (flatnonzero mask2)) = Ok r2 ->
+  Permutation (mesh_tris (mo_v r2) (mo_f r2)) (mesh_tris (mo_v r) (mo_f r)).
+Proof. exact slice_idempotent_masked. Qed.
+(* ... and at the public entry point with the real 1e-8 *)
+Theorem C02_public_idempotent : forall vs fs ref n r r2, vs <> [] ->
+  slice_triangles_by_plane ROps vs fs ref n None = Ok r ->
+  slice_triangles_by_plane ROps (mo_v r) (mo_f r) ref n None = Ok r2 ->
+  Permutation (mesh_tris (mo_v r2) (mo_f r2)) (mesh_tris (mo_v r) (mo_f r)).
+Proof. exact public_idempotent. Qed.
 Theorem C02_slice_idempotent_per_face : forall tol eps n o t t', (0 <= tol)%R ->
   In t' (slice_face ROps tol eps n o true t) -> forall m', slice_face ROps tol eps n o m' t' = [t'].
 Proof. exact slice_face_idempotent. Qed.
@@ -107,12 +161,13 @@ Theorem C02_wrapping_layer_is_model_on_nonnegative_faces : forall tol eps vs fsz
   slice_faces_plane_z ROps tol eps vs fsz n o fi = slice_faces_plane ROps tol eps vs (map zface_to_nat fsz) n o fi.
 Proof. exact slice_z_nonneg. Qed.
 (* REFUTED (known finding negative_index_survives): "whatever the input ... the arrays returned form a valid mesh" fails for a
-   face array with wrapping entries that all index the vertices: a kept face carries its negative entries into np.bincount *)
+   face array with wrapping entries that all index the vertices — at the public entry point, real tolerance: one vertex in front of
+   the plane z = 0 and the face (-1,-1,-1); the kept face carries its negative entries into np.bincount *)
 Theorem C02_negative_index_survives_refuted :
-  exists tol eps vs fsz n o,
-    (forall f, In f fsz -> forall k, (- Z.of_nat (length vs) <= zget f k < Z.of_nat (length vs))%Z) /\
-    slice_faces_plane_z ROps tol eps vs fsz n o None = Raise ValueError.
-Proof. exact negative_index_survives. Qed.
+  (forall f, In f [mkzface (-1) (-1) (-1)] ->
+     forall k, (- Z.of_nat (length [V3 0 0 1]%R) <= zget f k < Z.of_nat (length [V3 0 0 1]%R))%Z) /\
+  slice_triangles_by_plane_z ROps [V3 0 0 1]%R [mkzface (-1) (-1) (-1)] (V3 0 0 0)%R (V3 0 0 1)%R None = Raise ValueError.
+Proof. exact public_negative_index_survives. Qed.
 
 (* non-vacuity of the wholly-behind clause *)
 Example C02_all_behind_inhabited :
@@ -123,7 +178,16 @@ Proof.
   intros v [<-|[<-|[<-|[]]]]; unfold plane_dot; P_vec.vunf; Lra.lra.
 Qed.
 
-Definition C02_all := (C02_unique_bincount_spec, C02_unique_bincount_onto, C02_slice_mapping_len, C02_slice_empty,
+(* non-vacuity of the public-level hypotheses: a mask of the right length; a renumbering map that keeps every vertex *)
+Example C02_mask_ok_inhabited : mask_ok (length [mkface 0 1 2; mkface 0 2 1]) (Some [true; false]).
+Proof. reflexivity. Qed.
+Example C02_renumbering_inhabited :
+  forall i v, nth_error [V3 0 0 1; V3 1 0 0]%R i = Some v -> nth_error [V3 1 0 0; V3 0 0 1; V3 5 5 5]%R ((fun j => 1 - j)%nat i) = Some v.
+Proof. intros [|[|i]] v; cbn; intros H; try exact H. destruct i; discriminate. Qed.
+
+Definition C02_all := (C02_unique_bincount_spec, C02_unique_bincount_onto, C02_slice_mapping_len, C02_slice_all_behind_empty, C02_public_all_behind_empty,
+  C02_slice_returns_on_domain, C02_slice_empty_inputs, C02_public_face_order_invariant, C02_public_face_order_invariant_nomask,
+  C02_public_vertex_numbering_invariant, C02_slice_idempotent_masked, C02_public_idempotent,
   C02_slice_indices_valid_no_orphans, C02_renumber_keeps_coordinates, C02_slice_provenance, C02_slice_perm_relabel_invariant,
   C02_slice_idempotent, C02_slice_idempotent_per_face, C02_slice_complement, C02_kept_fractions_complement,
   C02_wrapping_layer_is_model_on_nonnegative_faces, C02_negative_index_survives_refuted).
